@@ -182,6 +182,8 @@ def extra_templates():
     add(A, body="\tout := fmt.Sprint(a)\n\tout += s\n\treturn out + fx()")
     add(A, body="\treturn fmt.Sprint(a) + s + fx()")
     add(A, body="\tf := func(v string) string { return v }\n\treturn f(fmt.Sprint(s)) + f(fmt.Sprintf(\"%s\", a)) + fx()")
+    add([("c", "Code"), ("s", "string")], body="\tvar out string = fmt.Sprint(c)\n\treturn out + s + fx()")
+    add([("c", "Code"), ("s", "string")], body="\tf := func(v string) string { return v }\n\treturn f(fmt.Sprintf(\"%s\", c)) + fx()")
     add([("e", "error")], body="\tif e == nil {\n\t\treturn fx()\n\t}\n\tvar out string = fmt.Sprint(e)\n\treturn out + fx()")
     add([], body="\tz := *new(complex128)\n\tz += 1i\n\treturn fmt.Sprint(real(z), fx())")
     add([], body="\tvar z complex64 = *new(complex64)\n\treturn fmt.Sprint(z, fx())")
